@@ -126,6 +126,21 @@ func (x *Exec) doCall(st *State, fr *Frame, ci *ssa.Call) bool {
 				}
 			}
 		}
+		if x.tcontract != nil && x.tcontract.pureDyn {
+			// declared assumption of the function under contract: its callbacks have no effect on the
+			// state the contracts talk about (their results are unconstrained)
+			x.havocked["effect-free (puredyn): call through a function value in "+x.targetName()] = true
+			r := freshSV(ci.Type(), "r_dyn")
+			x.wf(st, r)
+			// ... and return usable values: an interface or pointer result is not nil
+			for i, l := range leavesOf(ci.Type()) {
+				if i < len(r.l) && (l.kind == "tag" || isRefLeaf(l)) && l.sort == RefS && (i == 0) {
+					st.assume(Neq(r.l[i], mkBV(0, 32)))
+				}
+			}
+			fr.vals[ci] = x.splitTuple(ci.Type(), r)
+			return true
+		}
 		x.opaqueCall(st, fr, ci, "dynamic call")
 		return true
 	}
@@ -436,7 +451,13 @@ func (x *Exec) modularCall(st *State, fr *Frame, ci *ssa.Call, c *FuncContract, 
 	bindResults(vars, sig, results)
 	penv := &Env{x: x, st: st, oldSt: pre, vars: vars, pkg: pkg, assumeFresh: true}
 	x.applyGsets(st, penv, c)
-	for _, en := range c.ensures {
+	ens := c.ensures
+	if x.tcontract != nil && callee != nil && (contains(x.tcontract.frameOnly, relName(callee)) || contains(x.tcontract.frameOnly, callee.Name())) {
+		// the verified function does not need what this callee guarantees (only that it is called
+		// legitimately and what it may change): its postconditions are not brought into the path condition
+		ens = nil
+	}
+	for _, en := range ens {
 		t, err := penv.EvalBool(en.expr)
 		if err != nil {
 			panic(abortErr{fmt.Sprintf("%s:%d: ensures %s at call in %s: %v", en.file, en.line, en.text, fr.fn, err)})
